@@ -28,10 +28,12 @@ def compare(a, b, ordered=True):
         if isinstance(x, (list, tuple, set)):
             if not isinstance(y, (list, tuple, set)):
                 return f"{path}: collection became {type(y).__name__}"
+            if isinstance(x, set) != isinstance(y, set):
+                return f"{path}: {type(x).__name__} became {type(y).__name__}"
             xs, ys = list(x), list(y)
             if len(xs) != len(ys):
                 return f"{path}: length {len(xs)} became {len(ys)}"
-            if ordered:
+            if ordered and not isinstance(x, set):
                 for i, (p, q) in enumerate(zip(xs, ys)):
                     d = rec(p, q, f"{path}[{i}]")
                     if d:
